@@ -27,12 +27,16 @@ def query(tree, q):
         tree.max_size()
     elif q == "compressed":
         # a compressed-cost estimate is a pure query too (it works on its own hypergraph copy of the tree)
-        try:
-            tree.compressed_contract_stats(chi=2)
-            tree.compressed_contract_stats(chi=10**6, compress_late=True)
-            tree.max_size_compressed(chi=1)
-        except Exception:
-            pass        # networks the compressed estimator does not support
+        # (compress_late given explicitly: a plain tree has no default for it)
+        for fn in (lambda: tree.compressed_contract_stats(chi=2, compress_late=False),
+                   lambda: tree.compressed_contract_stats(chi=10**6, compress_late=True),
+                   lambda: tree.max_size_compressed(chi=1, compress_late=False),
+                   lambda: tree.peak_size_compressed(chi=2, compress_late=True),
+                   lambda: tree.total_flops_compressed(chi=3, compress_late=False)):
+            try:
+                fn()
+            except Exception:
+                pass        # networks the compressed estimator does not support
     elif q == "leaf_sizes":
         for t in range(tree.N):
             tree.get_size(frozenset([t]))
@@ -114,6 +118,17 @@ def cases_for(run, ct, rng, net, tree_nested, n_subsets, with_exec, light=False)
                 desc["exec_order"], desc["warm_order"] = ename, wname
                 snap = observe.snapshot(net, tree, orders=orders, arrays=arrays,
                                         exec_order=orders[ename], light=light, warm_order=orders[wname])
+                if not tree.sliced_inds and not light and rng.random() < 0.5:
+                    # the same tree as an object of the COMPRESSED class: its `*_exact` figures are the exact ones, its peak
+                    # that of ITS default step order (the order of its path, not depth-first)
+                    ctw = ct.ContractionTreeCompressed.from_path(net.c_inputs(), net.c_output(), net.c_sizes(),
+                                                                 ssa_path=tree.get_ssa_path(order=orders[ename]))
+                    seq = [observe.node1(p) for p, _, _ in ctw.traverse()]
+                    snap["peaks"].append({"seq": seq, "peak": int(ctw.peak_size_exact())})
+                    ex = {"flops": int(ctw.total_flops_exact()), "write": int(ctw.total_write_exact()), "size": int(ctw.max_size_exact())}
+                    if ex != snap["stats"]:
+                        run.violation(f"the compressed-class object of the same tree reports exact figures {ex}, the tree itself "
+                                      f"{snap['stats']}: eq={net.eq()} ssa={ssa}", desc, tags=["exact-aliases"])
         except Exception as e:
             run.violation(f"tree construction / query raised {core.exc_text(e)}", desc, tags=["raised"])
             continue
